@@ -12,6 +12,18 @@ TRUST = ("Trusted: go/ssa SSA construction, the govc VC generator, solver unsat 
 claimed = {
  "C05": dict(level="proof", text="Unbounded deductive proof: every obligation generated from the SSA of uu's parser (both instantiations), formatter, accessors and Marshal/Unmarshal wrappers is discharged for all 2^128 ids, all rule/format words, all inputs and all MaxInputLength values; the round trip is a lemma over the contracts.",
              ref="DESIGN.md §5 C05", technique="contract-based deductive verification (weakest-precondition VCs over go/ssa, bit-vector + integer SMT, exact loop unrolling with unwinding obligations)"),
+ "C01": dict(level="proof", text="Unbounded deductive proof that DefaultFormatter appends exactly the zero-padded ISO text for every real date of year 0..999999999 (both formats), that DefaultParser returns exactly the written components, and (lemmaC01RoundTrip) that parsing the formatted text gives back the date under every MaxInputLength that admits it; MarshalText/String/format/UnmarshalText wrappers under contract. The fmt/json/xml paths beyond those wrappers are standard-library behaviour (assumed).",
+             ref="DESIGN.md §5 C01", technique="contract-based deductive verification (WP over go/ssa, integer SMT with exact case splits on text length / year width, staged lemmas)"),
+ "C07": dict(level="proof", text="Before/After/Equal proved equal to lexicographic order of the fields and (lemma) to the order of proleptic-Gregorian day numbers; New/Time/FromTime/Add/AddDuration/Sub proved against calendar specifications (ord, realDay) over the assumed contracts of package time. DaysBetween's float step is not covered (stated gap).",
+             ref="DESIGN.md §5 C07", technique="contract-based deductive verification (integer SMT; calendar specification functions; assumed time.Date normalisation contract)"),
+ "C09": dict(level="proof", text="err == nil proved equivalent to: non-empty, within the limit, ISO text with 4-9 year digits and consistent separators, naming a real Gregorian day, basic form not disabled; components equal the written ones; zero value and typed error otherwise. All text lengths (exact split 8..15 derived from the pattern), both instantiations.",
+             ref="DESIGN.md §5 C09", technique="contract-based deductive verification (regexp encoded exactly as a disjunction of decompositions; integer SMT)"),
+ "C10": dict(level="proof", text="Acceptance proved equal to the regexp language (encoded exactly: forced leading M-run + bounded rest), value proved equal to the statement's valuation (1000 per M, group values by counting symbols, either letter case), Valid proved to accept the same texts, zero + typed error otherwise; unbounded in the number of leading Ms.",
+             ref="DESIGN.md §5 C10", technique="contract-based deductive verification (integer SMT; exact regexp semantics; quantified leading-run function)"),
+ "C11": dict(level="proof", text="MarshalBinary layout, UnmarshalBinary error classes, strictness (err == nil iff 7 bytes, version 1, real calendar date), receiver untouched on error, and the round trip lemma for every real date (all 2^32 years), in bit-vector arithmetic.",
+             ref="DESIGN.md §5 C11", technique="contract-based deductive verification (bit-vector SMT)"),
+ "C15": dict(level="proof", text="FilterFromTo verified through its body inside lemmaC15 for all nil/non-nil combinations: error iff from after to; Contains iff within the inclusive bounds (interface dispatch over the five filter types, each Contains under its own contract); the answer is unchanged after the caller's variables are overwritten.",
+             ref="DESIGN.md §5 C15", technique="contract-based deductive verification (integer SMT, dynamic dispatch over the module's filter types)"),
  "C19": dict(level="proof", text="Proved for all pairs of 63-bit draws: version 4 / variant 10; lock discipline (random only read with randomMutex held, released on every exit) as ghost-state obligations. 'No duplicate within a run' is probabilistic / whole-history and is not decided (stated gap).",
              ref="DESIGN.md §5 C19, §7", technique="contract-based deductive verification (bit-vector postcondition, ghost lock-ownership obligations)"),
 }
